@@ -4,8 +4,10 @@ Proof: Poly/Props/C13.lean over Poly/Model/Ledger.lean (AddBlock + saveBlock, Ex
 submitBlock with the parent and block-root checks, the block store). Tie: correspondence stream `grow`: a real
 LedgerStoreImp with 4-7 generated validator keys and real signatures executes submission histories of honest
 successors and mutants (height+1, +2, stale height with other content, unknown parent, parent = tip-1, equal / earlier
-timestamp, flipped / truncated / zero block root, wrong state root, missing signatures, stale re-submission, header
-first, a signed fork at the tip, configuration announcements) through both submission paths; verdict class and the
+timestamp (including the uint32 boundary values and half-range offsets), flipped / truncated / zero block root, wrong
+state root, missing signatures, stale re-submission, header first, a signed fork at the tip, configuration announcements,
+block-root queries (GetBlockRootWithPreBlockHashes with the tip / a foreign predecessor / several heights) followed by a
+block carrying the root over the foreign predecessor and by the honest block) through both submission paths; verdict class and the
 complete post-state observation are compared with the compiled model. Search: after every step the harness checks
 the property itself against independent references (RFC 6962 tree hash over the committed block hashes, parent = tip,
 timestamp order, lookups by height / hash / transaction, unchanged state after a refusal or a re-submission).
